@@ -2,6 +2,7 @@
 vs epgpy.simulate(adc_time=True, probe=...), get_adc_times and modify on timed sequences with any
 number of heterogeneous ADC probes; plus a defining-formula search on batched sequences (manual
 stepping of the real operators, weights/reduce/phase applied by hand)."""
+import collections
 import warnings
 
 import numpy as np
@@ -463,4 +464,88 @@ def search_modify(r, epg, ncase):
                 probs.append(("modified sequence differs from explicit evolutions", i, a.tolist(), b.tolist())); break
         if probs:
             dis.append({"kind": "c12-modify", "problems": probs, "input": {"seq": desc, "params": params, "expand": expand}})
+    return checked, dis, dist
+
+
+def search_snapshots(r, epg, ncase):
+    """every recorded value is the requested quantity of the state AT THAT POINT, also for probes returning several
+    quantities (tuple / list / callable) and whatever in-place operators follow: simulate() vs stepping the operators
+    out-of-place by hand and reading F0 / Z0 / F / Z at each probe position"""
+    dis, checked = [], 0
+    dist = collections.Counter()
+    forms = ["(F0, Z0)", "[F0, Z0]", "F0, Z0", "callable", "(F, Z)", "probe=(F0, Z0)", "probe=[F0,Z0] list"]
+    for _ in range(ncase):
+        form = forms[r.integers(len(forms))]
+        dist[form] += 1
+        nblk = int(r.integers(2, 6))
+        plan = []
+        for _ in range(nblk):
+            for _ in range(int(r.integers(1, 4))):
+                k = ["T", "E", "Phi", "S", "SPOILER", "P"][r.integers(6)] if r.random() < 0.8 else "T"
+                if k == "S" and r.random() < 0.6:
+                    k = "E"      # few shifts: the state array is then not re-allocated between acquisitions
+                plan.append((k, [float(r.uniform(20, 160)), float(r.uniform(-90, 90)), float(r.uniform(2, 12))]))
+            plan.append(("ADC", None))
+
+        def op_of(k, v):
+            if k == "T":
+                return epg.T(v[0], v[1])
+            if k == "E":
+                return epg.E(v[2], 700.0, 60.0, 0.02)
+            if k == "P":
+                return epg.P(v[2], 0.03)
+            if k == "Phi":
+                return epg.Phi(v[1])
+            if k == "S":
+                return epg.S(1)
+            return epg.SPOILER
+
+        def probe_op():
+            if form == "callable":
+                return epg.Probe(lambda sm: (sm.F0, sm.Z0))
+            if form.startswith("probe="):
+                return epg.ADC
+            return epg.Probe(form)
+
+        try:
+            with warnings.catch_warnings():
+                warnings.simplefilter("ignore")
+                seq = [probe_op() if k == "ADC" else op_of(k, v) for k, v in plan]
+                if form == "probe=(F0, Z0)":
+                    res = epg.simulate(seq, probe="(F0, Z0)")
+                elif form == "probe=[F0,Z0] list":
+                    res = epg.simulate(seq, probe=["F0", "Z0"])
+                    res = list(zip(np.asarray(res[0]), np.asarray(res[1])))
+                else:
+                    res = epg.simulate(seq, asarray=False)
+                # manual stepping, out of place
+                sm = epg.StateMatrix()
+                exp = []
+                for k, v in plan:
+                    if k == "ADC":
+                        if form == "(F, Z)":
+                            exp.append((np.array(sm.F, copy=True), np.array(sm.Z, copy=True)))
+                        else:
+                            exp.append((np.array(sm.F0, copy=True), np.array(sm.Z0, copy=True)))
+                    else:
+                        sm = op_of(k, v)(sm)
+        except Exception as exc:
+            dis.append({"kind": "c12-snapshots", "problems": [("raised", repr(exc)[:300])], "input": {"form": form, "plan": plan}})
+            continue
+        checked += 1
+        problems = []
+        if len(res) != len(exp):
+            problems.append(("number of records", len(res), len(exp)))
+        else:
+            for i, (got, want) in enumerate(zip(res, exp)):
+                g0, g1 = np.asarray(got[0]), np.asarray(got[1])
+                if g0.shape != np.asarray(want[0]).shape and g0.size == np.asarray(want[0]).size:
+                    g0, g1 = g0.reshape(np.asarray(want[0]).shape), g1.reshape(np.asarray(want[1]).shape)
+                if g0.shape != np.asarray(want[0]).shape or not (np.allclose(g0, want[0], atol=1e-12) and np.allclose(g1, want[1], atol=1e-12)):
+                    problems.append((f"record {i} is not the quantity at that point (recorded, state at that point)",
+                                     [g0.ravel()[:3].tolist(), g1.ravel()[:3].tolist()],
+                                     [np.ravel(want[0])[:3].tolist(), np.ravel(want[1])[:3].tolist()]))
+                    break
+        if problems:
+            dis.append({"kind": "c12-snapshots", "problems": problems, "input": {"form": form, "plan": plan}})
     return checked, dis, dist
